@@ -39,8 +39,7 @@ func main() {
 		os.Exit(4)
 	}
 	before := runtime.NumGoroutine()
-	var ms0, ms1 runtime.MemStats
-	runtime.ReadMemStats(&ms0)
+	var ms1 runtime.MemStats
 	func() {
 		defer func() {
 			if r := recover(); r != nil {
@@ -51,13 +50,7 @@ func main() {
 		f()
 	}()
 	runtime.ReadMemStats(&ms1)
-	if lim := verif.AllocLimitSlots; lim > 0 {
-		// one slot of a []value in go-ucfg is an interface (16 bytes)
-		if grown := ms1.TotalAlloc - ms0.TotalAlloc; grown > uint64(lim)*16*4+(8<<20) {
-			verif.Failures = append(verif.Failures, "alloc-limit")
-			fmt.Printf("ALLOC alloc-limit: %d bytes allocated with a limit of %d slots\n", grown, lim)
-		}
-	}
+	verif.CheckAlloc(ms1.TotalAlloc)
 	leaked := true
 	for i := 0; i < 50; i++ {
 		if runtime.NumGoroutine() <= before {
